@@ -25,6 +25,7 @@ type env struct {
 	noDef       bool // inside a define-fun-rec body: no side definitions
 	inOld       bool
 	fvAddrs     map[string]tval // captured variables of a closure: name -> address
+	fvSrc       map[string]ssa.Value // the FreeVar (inside the literal) or the bound Alloc (at the MakeClosure)
 }
 
 type specError string
@@ -36,7 +37,10 @@ func (en *env) fail(format string, args ...interface{}) {
 // contractEnv: names are the function's own parameters, named results and source
 // variables (resolved through debug info).
 func (e *fnEnc) contractEnv(st, old *state, li *loopInfo) *env {
-	en := &env{e: e, st: st, old: old, names: map[string]tval{}, loop: li, fn: e.fn, fvAddrs: e.freevars}
+	en := &env{e: e, st: st, old: old, names: map[string]tval{}, loop: li, fn: e.fn, fvAddrs: e.freevars, fvSrc: map[string]ssa.Value{}}
+	for _, fv := range e.fn.FreeVars {
+		en.fvSrc[fv.Name()] = fv
+	}
 	for k, v := range e.params {
 		en.names[k] = v
 	}
@@ -297,6 +301,13 @@ func (en *env) ident(name string) tval {
 	}
 	// captured variable of a closure: its current value
 	if a, ok := en.fvAddrs[name]; ok {
+		if src, ok := en.fvSrc[name]; ok {
+			if cv, isConst := en.e.constCell(src); isConst {
+				if pt, isPtr := a.typ.Underlying().(*types.Pointer); isPtr {
+					return tval{term: cv, typ: pt.Elem()}
+				}
+			}
+		}
 		if pt, isPtr := a.typ.Underlying().(*types.Pointer); isPtr {
 			return tval{term: en.e.loadValue(en.st, a.term, pt.Elem()), typ: pt.Elem()}
 		}
